@@ -57,20 +57,21 @@ Update(c, v) ==
       prev == c[e - 1]
       esE == e - p.P + prev.espat - 1
       esv == c[esE].val
-      es1 == IF prev.esres > 0 THEN [res |-> prev.esres - 1, pat |-> prev.espat]
-             ELSE IF MaxZ(esv - v) < p.TH THEN [res |-> 0, pat |-> MaxZ(prev.espat - 1)]
-             ELSE [res |-> 0, pat |-> p.P]
       rE == e - p.RP + prev.rpat - 1
       rv == c[rE].val
-      r1 == IF prev.rres > 0 THEN [res |-> prev.rres - 1, pat |-> prev.rpat, lrk |-> prev.lrk]
+      ES == IF prev.esres > 0 THEN [res |-> prev.esres - 1, pat |-> prev.espat]
+            ELSE IF MaxZ(esv - v) < p.TH THEN [res |-> 0, pat |-> MaxZ(prev.espat - 1)]
+            ELSE [res |-> 0, pat |-> p.P]
+      RL == IF prev.rres > 0 THEN [res |-> prev.rres - 1, pat |-> prev.rpat, lrk |-> prev.lrk]
             ELSE IF MaxZ(rv - v) < p.RTH THEN
                  IF prev.rpat - 1 = 0
                  THEN [res |-> p.RC, pat |-> p.RP,
                        lrk |-> IF NotNegligible(prev.lrk) THEN prev.lrk + 1 ELSE prev.lrk]
                  ELSE [res |-> 0, pat |-> prev.rpat - 1, lrk |-> prev.lrk]
             ELSE [res |-> 0, pat |-> p.RP, lrk |-> prev.lrk]
-  IN [epoch |-> e, esres |-> es1.res, espat |-> es1.pat, rres |-> r1.res, rpat |-> r1.pat,
-      lrk |-> r1.lrk, val |-> v, trn |-> TrainOf(e, v), user |-> UserOf(e, v)]
+  IN CHOOSE row \in {[epoch |-> e, esres |-> es1.res, espat |-> es1.pat, rres |-> r1.res, rpat |-> r1.pat,
+                       lrk |-> r1.lrk, val |-> v, trn |-> TrainOf(e, v), user |-> UserOf(e, v)] :
+                      es1 \in {ES}, r1 \in {RL}} : TRUE
 
 ContOf(row) == /\ (p.ne = 0 \/ row.epoch < p.ne)
                /\ ~(p.TH > 0 /\ row.espat = 0)
@@ -115,8 +116,8 @@ Stopped == Len(conts) > 0 /\ conts[Len(conts)] = FALSE
 
 UpdateForEpoch(v) ==
   /\ Len(hist) < MaxLen /\ ~Stopped
-  /\ LET row == Update(cache, v)
-     IN /\ hist' = Append(hist, row)
+  /\ \E row \in {Update(cache, v)} :       \* (bound through a singleton: TLC evaluates it once)
+        /\ hist' = Append(hist, row)
         /\ cache' = [e \in 0..Len(hist) + 1 |-> IF e = Len(hist) + 1 THEN row ELSE cache[e]]
         /\ conts' = Append(conts, ContOf(row))
         /\ optlr' = row.lrk          \* param_group["lr"] = new_lr when reduced, else untouched
